@@ -120,7 +120,7 @@ type Corruption struct {
 // ByzKinds lists the corruption kinds per RPC.
 var ByzKinds = map[string][]string{
 	"headers":       {"break-link", "low-work", "timestamp-past", "extra-remaining", "empty-with-remaining", "duplicate", "wrong-type", "garbage", "close"},
-	"blocks":        {"other-branch", "body-swap", "drop-txns", "too-few", "too-many", "reorder", "wrong-type", "garbage", "close", "foreign-last", "body-swap+hangup", "drop-txns+hangup"},
+	"blocks":        {"other-branch", "body-swap", "drop-txns", "too-few", "too-many", "reorder", "wrong-type", "garbage", "close", "foreign-last", "body-swap+hangup", "drop-txns+hangup", "too-few-not-last", "empty-not-last"},
 	"checkpoint":    {"non-v2", "wrong-id", "state-field", "state-work", "recommit", "wrong-type", "garbage", "close", "two-payouts", "payout-value", "v2-height"},
 	"relay-header":  {"low-work", "unknown-parent"},
 	"relay-outline": {"low-work", "invalid-child", "wrong-missing", "no-missing", "txn-altered", "unknown-parent"},
@@ -318,6 +318,17 @@ func (b *ByzPeer) Handle(id types.Specifier, s *gateway.Stream) {
 			}
 		case "too-few":
 			blocks = blocks[:len(blocks)-1]
+		case "too-few-not-last", "empty-not-last":
+			// a strict prefix of (or nothing from) a batch that is not the last of
+			// the download: more blocks follow in later requests, which other
+			// peers may answer
+			if rem == 0 {
+				applied = false
+			} else if kind == "empty-not-last" {
+				blocks = nil
+			} else {
+				blocks = blocks[:len(blocks)/2]
+			}
 		case "too-many":
 			blocks = append(blocks, blocks[len(blocks)-1])
 		case "reorder":
